@@ -15,7 +15,8 @@ CLAIMED = {
          'A-REFL; composition step; CPython dict order; print_system order (-d) undecided'),
  'C04': ('other', 'deductive VCs from the real AST (pyvc): invariance / equivariance of every geometric leaf under the 24 proper signed permutations and arbitrary translations (ring normalisation), box search on a pair at arbitrary placement (C11), hydrogen placement equivariance (C17); frame census of coordinate readers and of the PDB columns',
          'squared_distance, inter-atomic vectors, group centres, angle factors, bond perception and hydrogen construction proved independent of / equivariant under the motions, for all real coordinates; coordinates proved to enter only through these leaves.',
-         'A-REAL (float re-association in the last ulp: bounded pose monitor); hetero rotamers excluded as in the property'),
+         'A-REAL (float re-association in the last ulp: bounded pose monitor); hetero rotamers excluded as in the property. Level "other": the '
+         'hydrogen clause does NOT hold for a backbone nitrogen that follows a chain break (known finding D16, refuted and replayed on every run)'),
  'C05': ('proof', 'deductive VCs from the real AST (pyvc): cut-off stutter lemmas on the desolvation / reorganisation loops, pair-enumeration proof of set_determinants with equally labelled groups, closest-pair post of get_smallest_distance over abstract squared distances, identity of Iterative objects, early return of the coupling probe; GROUND cut-offs',
          'beyond the cut-off every interaction routine leaves its state unchanged; pair loops and the iterative solver tell groups apart by identity; the closest pair is always found (no sentinel) - proved for all real inputs. Fixed point of the iterative sweep: not proved (bounded).',
          'composition step + bounded monitor (two sets at 85 A ... 9000 A, both file orders, own copy)'),
